@@ -353,6 +353,24 @@ def singular_bins(d, ctx):
 
     out = ctx.lib(call, xx, nn)
     require(np.shape(out) == (F, D), 'shape', f'{np.shape(out)}')
+    # the same problems inside a stack with an extra leading axis, contiguous
+    # and as a transposed (non-contiguous) view: every copy gives the result
+    # of the single problem
+    Kx = d.int(2, 3)
+    layout = d.choice(['contiguous', 'transposed-view'])
+    if layout == 'contiguous':
+        xs, ns = np.stack([xx] * Kx), np.stack([nn] * Kx)
+    else:
+        xs = np.transpose(np.stack([xx] * Kx, axis=1).copy(), (1, 0, 2, 3))
+        ns = np.transpose(np.stack([nn] * Kx, axis=1).copy(), (1, 0, 2, 3))
+    stacked = ctx.lib(call, xs, ns)
+    ctx.label(layout)
+    for k in range(Kx):
+        both = np.isfinite(out) & np.isfinite(stacked[k])
+        require(np.array_equal(np.isfinite(out), np.isfinite(stacked[k])) and
+                np.allclose(stacked[k][both], out[both], rtol=1e-9 * cond, atol=1e-300),
+                'stack-with-singular-bins-differs-from-single-problem',
+                f'{which} layout={layout} copy {k}', which=which, layout=layout)
     good = [f for f in range(F) if f not in bad]
     if good:
         alone = ctx.lib(call, xx[good], nn[good])
